@@ -96,7 +96,9 @@ static void* POOL_thread(void* opaque) {
             /* If the intended queue size was 0, signal after finishing job */
             ZSTD_pthread_mutex_lock(&ctx->queueMutex);
             ctx->numThreadsBusy--;
-            ZSTD_pthread_cond_signal(&ctx->queuePushCond);
+            /* POOL_joinJobs() and blocked POOL_add() callers wait on the same condition :
+             * wake all of them, a single signal could be consumed by a waiter that cannot proceed */
+            ZSTD_pthread_cond_broadcast(&ctx->queuePushCond);
             ZSTD_pthread_mutex_unlock(&ctx->queueMutex);
         }
     }  /* for (;;) */
